@@ -34,7 +34,7 @@ SCH = {"enum_ab": {"type": "string", "enum": ["a", "b"]}, "enum_a": {"type": "st
 SAMPLE = {"str": "s", "int": 7, "num": 1.5, "bool": True, "date": "2020-01-02", "datetime": "2020-01-02T03:04:05+00:00", "uuid": K.UUID1,
           "enum_ab": "b", "enum_a": "a", "enum_cd": "c", "ienum_12": 2, "ienum_1": 1, "any": "x", "model_ref": {"z": 1},
           "enum_kbx": "kb", "enum_KBxy": "KB", "enum_12xx": "2xx", "enum_451xx": "4xx"}
-DEFAULT = {"str": "dv", "int": 3, "num": 2.5, "bool": False, "date": "2001-02-03", "enum_ab": "a", "enum_a": "a", "enum_cd": "d", "ienum_12": 1, "ienum_1": 1}
+DEFAULT = {"any": "dv", "str": "dv", "int": 3, "num": 2.5, "bool": False, "date": "2001-02-03", "enum_ab": "a", "enum_a": "a", "enum_cd": "d", "ienum_12": 1, "ienum_1": 1}
 
 
 def kname(k):
